@@ -9,7 +9,7 @@ DIRS = ["C06_Typed"]
 TRUSTED = [
     "hand-written model of kvstore/typedvalue.go (Model.v) and kvstore/typedstore.go (StoreModel.v), tied to the code by the correspondence check only",
     "the KVStore below is modelled as the raw bytes under one key (TypedValue) / a sorted association list (TypedStore); faults are injected by a KVStore wrapper and by the codecs in the harness, one script position per call",
-    "the RWMutex is not modelled: calls are atomic steps (Get/Has = optional lock-free fast phase + full slow phase); concurrent behaviour is observed by free-running runs, not proved",
+    "the RWMutex itself is not modelled: calls are atomic steps (Get/Has = optional lock-free fast phase + full slow phase). Adequacy of that is proved from the premise 'every store call, codec call, callback and cache assignment of an operation happens while the operation holds the mutex' (C06_locked_calls_serial; C06_refuted_narrowed_lock shows the premise is needed); the premise is checked on the code by the boundary-intruder schedules and free-running runs, not proved",
 ]
 
 
@@ -23,14 +23,17 @@ def run(ctx):
             ctx.corr(hx, ["hist", "--n", "1200", "--len", "40"], cases_name="cases%d.v" % k)
         ctx.seed -= 5000
         ctx.corr(hx, ["conc", "--runs", "200"], cases_name="conc.v")
+        ctx.corr(hx, ["win", "--lists", "40"], cases_name="win.v")
     else:
         ctx.corr(hx, ["hist", "--n", "600", "--len", "25"])
         ctx.corr(hx, ["conc", "--runs", "30"], cases_name="conc.v")
+        ctx.corr(hx, ["win", "--lists", "6"], cases_name="win.v")
     ctx.assumptions += [
         "codec premise of the theorems: enc v = Some b -> dec b = Some v (decode inverts a successful encode); codecs and callbacks are otherwise arbitrary functions, their failures arbitrary (fault script + own failures)",
         "an injected fault makes the call return an error without side effect (a store call that applies the write and then reports an error is outside this property)",
         "nobody writes the raw key of a TypedValue behind its back (single owner of the key); values are copied by assignment (V without shared mutable structure)",
-        "calls on one TypedValue are serialised by its mutex: proved for the atomic-step model, observed on the real code by free-running runs (no lost update, no unwritten value read)",
+        "model fact the atomic-step theorems rest on: operations on one TypedValue are atomic w.r.t. each other BECAUSE all store calls, codec calls, the compute callback and the cache assignments of an operation happen under its mutex (Coq: C06_locked_calls_serial proves serialisation from exactly this premise for all schedules; C06_refuted_narrowed_lock: false without it). Checked on the implementation by starting a second operation (Set/Delete/Compute/Get/Has) at EVERY store-call, codec-call and callback boundary of a first caller's operations (bounded wait 20 ms; with the premise the second caller blocks on the mutex), judged by serialisability of all results + final raw bytes against the sequential raw-key reference and by cache == store afterwards; and by free-running runs (no lost update, no unwritten value read)",
+        "not covered by the boundary schedules: a race window that contains no store/codec/callback call (e.g. the mutex released and re-taken between the store write and the cache assignment); sync.RWMutex and the Go memory model are trusted",
     ]
 
 
@@ -39,6 +42,13 @@ def replay(ctx, obj):
     if isinstance(case, dict) and "case" in case:
         case = case["case"]
     hx = ctx.go_build("c06")
+    if isinstance(case, dict) and case.get("kind") == "win":
+        # a scripted schedule: second operation started at one store/codec/callback boundary of the first caller
+        path = os.path.join(ctx.build, "replay_case.json")
+        json.dump(case, open(path, "w"))
+        print(json.dumps(case))
+        ctx.corr(hx, ["win", "--case", path], cases_name="replay.v")
+        return ctx.finish(LEVEL)
     if not (isinstance(case, dict) and case.get("kind") in ("tv", "ts")):
         print("no sequential case in the replay file; re-running the check")
         run(ctx)
